@@ -5,6 +5,7 @@ import Ptn.C19.Mps
 import Ptn.C19.FromTensor
 import Ptn.C19.StarFork
 import Ptn.C19.Binary
+import Ptn.C19.Const
 /-! Property theorems for C19. Only property theorems and non-vacuity examples live here. -/
 namespace Ptn.C19
 
@@ -349,5 +350,99 @@ example : binGenerate 3 2 3 = some
      ⟨.phys 0, some (.virt 0 0), [], [0, 1], [2, 3]⟩,
      ⟨.phys 1, some (.virt 1 0), [], [0, 1], [2, 3]⟩,
      ⟨.phys 2, some (.virt 1 0), [], [0, 1], [2, 3]⟩] := by decide
+
+/-! ### the product-state helpers of star and fork (partial: completion is not proved) -/
+
+/-- `StarTreeTensorState.constant_product_state(value, d, chain_length = L, num_chains = C)` for every
+    dimension `d` (after the repair F-C19): **if** the calls it makes are accepted, the result is the star of
+    `star_structure` with centre shape `(1,…,1,d)` (`C` ones), `C` chains (when `L > 0`) of `L` nodes each,
+    every chain tensor of shape `(1, d)` (last node) or `(1, 1, d)` - the requested dimension `d`, not a
+    hard-coded one.  Partial: that the calls *are* accepted for all `d, L, C` is checked by the
+    correspondence on the parameter grid, not proved. -/
+theorem star_const_structure_partial (d L C : Nat) (st : Star) (h : starConst d L C = some st) :
+    starRun (List.replicate C 1 ++ [d]) (starConstCalls d L C) = some st ∧
+    (∀ x ∈ starConstCalls d L C, x.1 < C ∧ (x.2 = [1, d] ∨ x.2 = [1, 1, d])) ∧
+    (∀ c, cntC (starConstCalls d L C) c = if c < C then L else 0) ∧
+    (∀ c, c < st.lens.length → st.lens[c]? = some L) ∧ (0 < L → st.lens.length = C) := by
+  have hs := star_structure _ _ st h
+  obtain ⟨_, _, _, hsmall, hbig, _⟩ := hs
+  refine ⟨h, starConstCalls_shapes d L C, cntC_starConst d L C, ?_, ?_⟩
+  · intro c hc
+    have := hsmall c hc
+    rw [cntC_starConst] at this
+    by_cases hcC : c < C
+    · simpa [hcC] using this.1
+    · simp [hcC] at this
+  · intro hL
+    have h1 : st.lens.length ≤ C := by
+      rcases Nat.lt_or_ge C st.lens.length with hlt | hge
+      · have := (hsmall C hlt).2
+        rw [cntC_starConst] at this
+        simp at this
+      · exact hge
+    have h2 : C ≤ st.lens.length := by
+      rcases Nat.lt_or_ge st.lens.length C with hlt | hge
+      · have := hbig st.lens.length (Nat.le_refl _)
+        rw [cntC_starConst, if_pos hlt] at this
+        omega
+      · exact hge
+    omega
+
+/-- `constant_ftps(local_state, width, height, bond_dim)`: **if** the calls it makes are accepted, the main
+    chain has `height` nodes and every sub-chain has `width - 1` nodes (so each row has `width` nodes: the
+    `Args:` text of the docstring, which says `width` = main-chain length and `height` = sub-chain
+    length, has the two words swapped), and the network is the fork of `fork_structure`.  Partial:
+    completion for all parameters is checked by the correspondence, not proved. -/
+theorem ftps_structure_partial (d width height bd : Nat) (st : Fork)
+    (h : ftps d width height bd = some st) :
+    0 < width ∧ 0 < height ∧ 0 < bd ∧
+    forkRun (ftpsCalls d width height bd) = some st ∧
+    st.subLens.length = height ∧ ∀ i, i < height → st.subLens[i]? = some (width - 1) := by
+  unfold ftps at h
+  by_cases hz : width = 0 ∨ height = 0 ∨ bd = 0
+  · rw [if_pos hz] at h; cases h
+  rw [if_neg hz] at h
+  refine ⟨by omega, by omega, by omega, h, ?_⟩
+  have hmains : ∀ x ∈ ftpsMains d height bd, x.isMain = true := by
+    intro x hx
+    simp only [ftpsMains, List.mem_map] at hx
+    obtain ⟨i, _, rfl⟩ := hx
+    rfl
+  have hM : cntM (ftpsCalls d width height bd) = height := by
+    rw [ftpsCalls_eq]
+    unfold cntM
+    rw [List.countP_append]
+    have a := cntM_mains _ hmains
+    have b := cntM_subs d width bd height
+    unfold cntM at a b
+    rw [a, b]
+    simp [ftpsMains]
+  have hS : ∀ i, cntS (ftpsCalls d width height bd) i = if i < height then width - 1 else 0 := by
+    intro i
+    rw [ftpsCalls_eq]
+    unfold cntS
+    rw [List.countP_append]
+    have a := cntS_mains _ hmains i
+    have b := cntS_subs d width bd height i
+    unfold cntS at a b
+    rw [a, b]
+    simp
+  rcases fork_structure _ st h with ⟨h0, _⟩ | ⟨rs, rest, hc, _, _, hlen, hsub, _⟩
+  · rw [h0] at hM
+    simp [cntM] at hM
+    omega
+  · rw [hc] at hM hS
+    have hM' : cntM rest + 1 = height := by
+      simpa [cntM, List.countP_cons, ForkCall.isMain] using hM
+    have hS' : ∀ i, cntS rest i = if i < height then width - 1 else 0 := by
+      intro i
+      have := hS i
+      simpa [cntS, List.countP_cons, ForkCall.isSub] using this
+    refine ⟨by omega, ?_⟩
+    intro i hi
+    rw [hsub i (by omega), hS' i, if_pos hi]
+
+example : (starConst 3 2 2).isSome = true := by decide
+example : (ftps 3 2 3 2).isSome = true := by decide
 
 end Ptn.C19
